@@ -44,11 +44,15 @@ Contained(c, d) ==
                         \/ BothD(c.m[k], d.m[k]) /\ Contained(c.m[k], d.m[k])
 
 \* all sub-dictionaries of d (every c with Contained(c, d), up to Eq)
-RECURSIVE Subs(_)
-SubVals(v) == IF IsD(v) THEN Subs(v) ELSE {v}
-Subs(d) == UNION {{Dict(g) : g \in {f \in [S -> UNION {SubVals(d.m[k]) : k \in S}] :
-                                       \A k \in S : f[k] \in SubVals(d.m[k])}}
-                  : S \in SUBSET Keys(d)}
+RECURSIVE SubsOver(_, _)
+SubsOver(d, ks) ==
+  IF ks = {} THEN {Empty}
+  ELSE LET k == CHOOSE j \in ks : TRUE
+           rest == SubsOver(d, ks \ {k})
+           vals == IF IsD(d.m[k]) THEN SubsOver(d.m[k], Keys(d.m[k])) ELSE {d.m[k]}
+       IN rest \cup {Dict([j \in Keys(c) \cup {k} |-> IF j = k THEN v ELSE c.m[j]]) :
+                        c \in rest, v \in vals}
+Subs(d) == SubsOver(d, Keys(d))
 
 (***************************************************************************)
 (* intersection(d1, d2, level): level 0 compares whole dictionaries, level *)
